@@ -159,11 +159,45 @@ theorem init_starts_from_initialiser (I : Interp E B G P A) (cfg : Config) (p : 
     rw [hrows r hr'] at h1 h3
     exact ⟨d, h1, h2, h3⟩
 
-/-- **finding F3**: under `ascent!` the initialiser is indexed by `Default` and again by `run()`, so what
-aggregators are handed repeats every initial row (kernel-checked witness in the model) -/
-theorem init_then_run_duplicates_agg_view :
+/-- **initialised relations with aggregation** (finding F3, fixed by 8b2e261: `run()` rebuilds the indices
+that `Default` built from the initialiser): on duplicate-free initialisers the first `run()` hands every
+aggregation a duplicate-free enumeration of exactly the relation's rows, and computes the stratified
+model over exactly the initialisers -/
+theorem init_agg_view_each_once (I : Interp E B G P A) (cfg : Config) (p : Program E B G P A) (order : SccOrder)
+    (init : RelId → List Tuple) (fuel : Nat) (ps : ProgSt)
+    (hp : RelationalAgg p) (ho : validOrder p order = true) (hs : Stratified p order) (hnd : ∀ r, (init r).Nodup)
+    (hrun : run I cfg p order fuel (defaultSt p init) = .done ps) :
+    (∀ r, (aggView ps.st r).Nodup ∧ (aggView ps.st r).Perm (relSt ps.st r).rows) ∧
+    (∀ f, factsOf ps.st f ↔ Derivable I p.rules (aggView ps.st) (inputDB p init) f) := by
+  have hrows : ∀ r, (relSt (defaultSt p init) r).rows = (relSt (initSt p init) r).rows := by
+    intro r; simp [defaultSt, relSt_updateIndices]
+  have hnd' : ∀ r, (relSt (defaultSt p init) r).rows.Nodup := by
+    intro r
+    rw [hrows]
+    by_cases hr : r < p.rels.length
+    · rw [rows_initSt p init r hr]; exact hnd r
+    · rw [relSt_of_ge _ _ (by simpa [initSt] using Nat.le_of_not_lt hr)]; exact List.nodup_nil
+  refine ⟨agg_view_each_once_from I cfg p order _ fuel ps hp ho hs (wfSt_defaultSt p init) hnd' hrun, fun f => ?_⟩
+  rw [run_agg_eq_model_from I cfg p order _ fuel ps hp ho hs (wfSt_defaultSt p init) hnd' hrun f]
+  have hdb : ∀ g, (g.rel < p.rels.length ∧ factsOf (defaultSt p init) g) ↔ inputDB p init g := by
+    intro g
+    constructor
+    · rintro ⟨h1, h2⟩; refine ⟨h1, ?_⟩
+      have : g.args ∈ (relSt (defaultSt p init) g.rel).rows := h2
+      rwa [hrows, rows_initSt p init g.rel h1] at this
+    · rintro ⟨h1, h2⟩; refine ⟨h1, ?_⟩
+      show g.args ∈ (relSt (defaultSt p init) g.rel).rows
+      rwa [hrows, rows_initSt p init g.rel h1]
+  exact ⟨derivable_mono_input (fun g hg => (hdb g).mp hg) f, derivable_mono_input (fun g hg => (hdb g).mpr hg) f⟩
+
+/-- the former F3 witness, now passing: two initial rows, the view after the first `run()` has two
+entries (it had four before fix 8b2e261) -/
+theorem init_then_run_view_witness :
     let I : Interp Unit Unit Unit Unit Unit := ⟨fun _ _ => .unit, fun _ _ => true, fun _ _ => [], fun _ _ => none, fun _ b => b, fun _ a _ => (a, false)⟩
-    ∃ ps, run I {} f2Witness [] 5 (defaultSt f2Witness fun _ => [[.int 1], [.int 2]]) = .done ps ∧ (aggView ps.st 0).length = 4 := by
+    ∃ ps, run I {} f2Witness [] 5 (defaultSt f2Witness fun _ => [[.int 1], [.int 2]]) = .done ps ∧ (aggView ps.st 0).length = 2 := by
   intro I; refine ⟨_, rfl, ?_⟩; decide
+
+#print axioms init_agg_view_each_once
+#print axioms init_then_run_view_witness
 
 end AscentVerif.Engine
